@@ -142,6 +142,12 @@ func (fx *FuncExec) execCall(st *State, instr ssa.Instruction, c *ssa.CallCommon
 				if recv != nil {
 					env = env.with("recv", *recv)
 				}
+				if fn == nil && !c.IsInvoke() {
+					// a call through a function value: `callee` names that value
+					if cv := fx.val(st, c.Value); cv.S != "" {
+						env = env.with("callee", cv)
+					}
+				}
 				for _, a := range cs.Asserts {
 					// evaluated in the discovery passes too (heap keys), obliged only in the real pass
 					fx.obligeClause("assert@call", st, env, a, fmt.Sprintf("at call %s#%d: %s", short, ord, a.Text), instr.Pos())
